@@ -20,5 +20,10 @@ def main(run):
     if want(run, 'P') or want(run, 'T'):
       with anchored(run, 'C05/P'):
         deductive(run)
+    if want(run, 'F'):
+      with anchored(run, 'C05/F'):
+        # the observables of this property are (or read) memoised values: no covered mutator leaves one of them stale (engine F restricted to the keys these observables read)
+        from checks.fpart import run_F
+        run_F(run, entry_points=['kekule', 'thiele', 'enumerate_kekule', 'aromatic_rings', 'sssr'])
     bounded_part(run, 'C05')
     return FINISH
